@@ -857,8 +857,7 @@ static void checkConditional(Rng& r, Ctx& c, const MeshCase& mc, const std::vect
     }
     else dpts.push_back(insidePoint());
   }
-  if (nOutData > 0 || getenv("C15_DEBUG_LASTDATA") == nullptr)
-    dpts.back() = insidePoint(); // keep the last sample strictly inside (MeshEStandard drops trailing empty rows: see (c))
+  dpts.back() = insidePoint(); // keep the last sample strictly inside (MeshEStandard drops trailing empty rows: see (c))
   int zclass = r.irange(0, 2); // data magnitude classes: the iterative solver's stopping rule is not scale invariant
   double zscale = std::sqrt(totalSill) * (zclass == 0 ? r.loguni(1e-4, 1e-2) : zclass == 1 ? r.uni(0.5, 2.) : r.loguni(1e2, 1e4));
   std::vector<double> z(nd);
@@ -987,10 +986,6 @@ static void checkConditional(Rng& r, Ctx& c, const MeshCase& mc, const std::vect
   LD r2ch, mch, rich, r2cg, mcg, ricg;
   residual(xch, &r2ch, &mch, &rich);
   residual(xcg, &r2cg, &mcg, &ricg);
-  {
-    double q = (double)(rich / (64. * N * EPS * mch + 1e-300L));
-    c.check("solve-residual-chol", "C15:PrecisionOpMultiConditionalCs::evalInverse:residual:" + kcls, q <= 1, q, 1);
-  }
   const double CGEPS = 1e-8; // ALinearOpMulti default eps (EPSILON8); SPDE never changes it
   // cheap upper bound of cond(A): lambda_max <= ||A||_1 ; lambda_min >= min_k lambda_min(Q_k) >= min_k coef_k[0] * min(lambda_ki^2)
   // (Q = Lambda P(S) Lambda, S positive semi-definite, polynomial coefficients >= 0 for every model generated here)
@@ -1012,6 +1007,12 @@ static void checkConditional(Rng& r, Ctx& c, const MeshCase& mc, const std::vect
     kappaUb = (double)a1 / lminQ;
   }
   c.putn("kappaUb", kappaUb);
+  if (kappaUb <= 1e10)
+  {
+    double q = (double)(rich / (64. * N * EPS * mch + 1e-300L));
+    c.check("solve-residual-chol", "C15:PrecisionOpMultiConditionalCs::evalInverse:residual:" + kcls, q <= 1, q, 1);
+  }
+  else c.skip("cond:chol-illcond(kappaUb>1e10)");
   std::string bcls = bnorm < 1 ? "rhs-norm<1" : "rhs-norm>=1";
   bool cgRuleOk = false;
   if (!(bnorm > 0)) c.skip("cond:zero-rhs");
@@ -1127,7 +1128,12 @@ static void checkConditional(Rng& r, Ctx& c, const MeshCase& mc, const std::vect
   }
   for (int i = 0; i < N; i++) for (int j = 0; j < i; j++) { LD v = 0.5 * (A(i, j) + A(j, i)); A(i, j) = A(j, i) = v; }
   ref::Chol chA(A);
-  if (!chA.ok) { c.truth("cond-A-posdef", "C15:cond:A-not-posdef:" + cls, false); return; }
+  if (!chA.ok)
+  {
+    if (kappaUb > 1e10) c.skip("cond:illcond");
+    else c.truth("cond-A-posdef", "C15:cond:A-not-posdef:" + cls, false);
+    return;
+  }
   std::vector<LD> xs = cholSolve(chA, bref);
   // ||A^-1||_2 <= ||A^-1||_1 (symmetric): columns of the inverse
   LD ainv1 = 0;
@@ -1391,6 +1397,22 @@ static void run_case(Rng& r, Ctx& c)
   for (double v : lam) if (!(v > 0) || !std::isfinite(v)) lamOk = false;
   if (!c.truth("lambda-positive", "C15:shiftop:lambda-nonpositive:" + cls, lamOk)) return;
   c.truth("two-shiftops-agree", "C15:shiftop:nondeterministic:" + cls, lam == lamCs);
+  // cheap upper bound of cond(Q): lambda_max <= ||Q||_1, lambda_min >= coef[0] * min(lambda_i^2) (P(S) >= coef[0] I since S is PSD and
+  // the coefficients are >= 0). Beyond 1e10 the entries of Q (known to 1e-16 relative) no longer determine a positive definite matrix
+  // reliably (n eps cond ~ 1): factorisations, x'Qx and solves are then excluded (DESIGN 5.3), products and symmetry are not.
+  double kappaUbQ;
+  {
+    std::vector<LD> colsum(n, 0);
+    LD q1 = 0;
+    for (size_t k = 0; k < Q.v.size(); k++) colsum[Q.c[k]] += std::fabs((LD)Q.v[k]);
+    for (LD v : colsum) q1 = std::max(q1, v);
+    double lmin2 = INFINITY;
+    for (double v : lam) lmin2 = std::min(lmin2, v * v);
+    kappaUbQ = (double)q1 / (mo.coef[0] * lmin2);
+  }
+  const bool wellQ = kappaUbQ <= 1e10;
+  c.putn("kappaUbQ", kappaUbQ);
+  if (!wellQ) c.skip("Q:illcond(kappaUbQ>1e10):factorisation-oracles");
   // algebraic invariants of the shift operator S = C^-1/2 G C^-1/2 (ShiftOpCs::_buildS: "_S->prodNormDiagVecInPlace(_TildeC, -3)"):
   // G is a stiffness matrix (rows sum to zero because the shape functions sum to one) => S * sqrt(TildeC) = 0; S symmetric; x'Sx >= 0
   {
@@ -1563,7 +1585,7 @@ static void run_case(Rng& r, Ctx& c)
   const int NCHOL = c.thorough() ? 320 : 200;
   LD refLogdet = NAN;
   double condEst = 1; // (max L_ii / min L_ii)^2 of the reference factor: lower bound of cond(Q)
-  bool haveDense = n <= NCHOL;
+  bool haveDense = n <= NCHOL && wellQ;
   Mat Qd;
   if (haveDense)
   {
@@ -1578,7 +1600,7 @@ static void run_case(Rng& r, Ctx& c)
       condEst = (double)((lmax / lmin) * (lmax / lmin));
     }
   }
-  for (int t = 0; t < 4; t++)
+  for (int t = 0; t < 4 && wellQ; t++)
   {
     std::vector<double> x = makeVec(t == 0 ? 0 : t == 1 ? 2 : t == 2 ? 4 : 3);
     std::vector<LD> xl = toLD(x), y = mulv(Q, xl);
@@ -1588,6 +1610,7 @@ static void run_case(Rng& r, Ctx& c)
   }
 
   // ---- 5. the library's sparse Cholesky on Q: must succeed, solve, and give log det ------------------
+  if (wellQ)
   {
     CholeskySparse chol(Qlib);
     std::vector<double> b = makeVec(0), x(n, 0.);
@@ -1615,6 +1638,7 @@ static void run_case(Rng& r, Ctx& c)
 
   // ---- 5a. PrecisionOpCs::evalSimulate = L^-T w (CholeskySparse::addSimulateToDest): x'Qx = w'w.
   //      Backward error of the triangular solve: |w'w - x'Qx| <= c n eps |x|'|L||L'||x| <= c n^2 eps ||Q||_1 ||x||_2^2
+  if (wellQ)
   {
     std::vector<double> w = makeVec(0);
     VectorDouble xs = qcs.evalSimulate(VD(w));
@@ -1665,7 +1689,7 @@ static void run_case(Rng& r, Ctx& c)
     c.check("extractDiag", "C15:extractDiag:cs:" + cls, q1 <= 1, q1, 1);
     c.check("extractDiag", "C15:extractDiag:matfree:" + cls, q2 <= 1, q2, 1);
   }
-  if (r.coin(c.thorough() ? 0.25 : 0.12))
+  if (r.coin(c.thorough() ? 0.25 : 0.12) && wellQ)
   { // PrecisionOp::evalInverse (matrix-free) = Lambda^-1 f(S) Lambda^-1 b, f = Chebychev fit of 1/P on [0, ||S||_1].
     // Documented accuracy of the fit (Chebychev::fit -> _countCoeffs, tol = EPSILON5): |f^2 - (1/P)^2| < tol ((1/P)^2 + EPSILON2)
     // at the sampled abscissae, i.e. |f - 1/P| <= sqrt(tol * EPSILON2) = 3.2e-4 where 1/P is small, ~5e-6 where 1/P ~ 1
